@@ -913,3 +913,145 @@ def calculator_flows(run, tmp, rng, thorough):
             one("phonopy", "params_nac.yaml", ["--nac"], dict(fc_calculator="traditional", symmetrize_fc=False), False)
         run.cov["oracle"]["workflow comparisons: " + fl.name] = fl.nchecks
         os.chdir(tmp)
+
+
+# --------------------------------------------------------------------------
+# a setting on the command line / in the conf file contradicts what the input yaml stores
+# --------------------------------------------------------------------------
+
+def override_flows(run, tmp, rng, thorough):
+    """Conventional NaCl (8 atoms, F-centred) saved as phonopy_params.yaml with a stored primitive matrix, NAC
+    parameters and a displacement-force dataset.  For `phonopy-load <yaml>` and `phonopy <yaml>`: PRIMITIVE_AXES /
+    --pa, NAC on/off, fc symmetry, MESH (conf) vs --mesh, --dim vs the stored supercell matrix must have the
+    documented effect, i.e. the outputs equal the library call `phonopy.load(yaml, primitive_matrix=…, is_nac=…,
+    symmetrize_fc=…)` that passes the same override, and phonopy.yaml records what was used."""
+    import phonopy
+    from phonopy import Phonopy
+
+    cell, _ = gen.make_cell("nacl")
+    dim = [1, 1, 1]
+    fl = Flow(run, "override-nacl-conv", dim, tmp)
+    fl.cell = cell
+    os.chdir(fl.dir)
+    born8 = np.array([np.eye(3) * 1.1] * 4 + [-np.eye(3) * 1.1] * 4)
+    qtxt = "0.1 0.2 0.3 1/2 0 0 0.02 0 0"
+    q = np.array([U.fracval(x) for x in qtxt.split()]).reshape(-1, 3)
+    stored = {}
+    for label, pm in (("F", "F"), ("P", "P")):
+        ph = Phonopy(cell, supercell_matrix=np.diag(dim), primitive_matrix=pm, log_level=0)
+        ph.generate_displacements(distance=0.01, is_plusminus=True)
+        fc = gen.pair_fc(ph.supercell, cutoff=4.5)
+        forces = []
+        for k, scd in enumerate(ph.supercells_with_displacements):
+            f = -np.einsum("ijab,jb->ia", fc, scd.positions - ph.supercell.positions)
+            # a small asymmetric part so that symmetrising the force constants changes them
+            noise = np.array([[((7 * i + 3 * a + 11 * k) % 13 - 6) * 2e-5 for a in range(3)] for i in range(len(f))])
+            forces.append(f + noise)
+        ph.forces = forces
+        ph.save("params_%s.yaml" % label, settings={"force_sets": True, "displacements": True})
+        ph.nac_params = {"born": born8[[0, 4]] if pm == "F" else born8, "dielectric": np.eye(3) * 2.5, "factor": 14.399652}
+        ph.save("pa_nac_%s.yaml" % label, settings={"force_sets": True, "displacements": True, "born_effective_charge": True, "dielectric_constant": True})
+        stored[label] = ph
+
+    def freqs():
+        y = _yaml("qpoints.yaml")
+        return np.array([[b["frequency"] for b in p["band"]] for p in y["phonon"]]), y
+
+    def run_case(variant, infile, opts, lib_kw, what, extra_check=None, conf=None):
+        """one command against the library call with the same override"""
+        for f in ("qpoints.yaml", "phonopy.yaml", "mesh.yaml"):
+            if os.path.exists(f):
+                os.remove(f)
+        head = [infile] + (["--fc-calc", "traditional"] if variant == "load" else [])
+        if conf is not None:
+            U.write_conf("ov.conf", conf)
+            head += ["--config", "ov.conf"]
+        argv = head + opts + ["--qpoints"] + qtxt.split()
+        if fl.cmd(variant, argv, must=["qpoints.yaml", "phonopy.yaml"]) is None:
+            return
+        kw = dict(fc_calculator="traditional", symmetrize_fc=(variant == "load"), is_nac=(variant == "load"), log_level=0)
+        kw.update(lib_kw)
+        lib = phonopy.load(infile, **kw)
+        lib.run_qpoints(q)
+        f_lib = lib.get_qpoints_dict()["frequencies"]
+        f_cli, y = freqs()
+        case = dict(yaml=infile + ": conventional NaCl (8 atoms), stored primitive_matrix %s, dataset%s" % (infile[-6], ", nac_params" if "nac" in infile else ""), argv=argv, conf=conf,
+                    library_call="phonopy.load(%r, %s)" % (infile, ", ".join("%s=%r" % kv for kv in sorted(kw.items()) if kv[0] != "log_level")))
+        fl.nchecks += 1
+        run.count("workflow comparisons", section="oracle")
+        run.count("yaml-contradicting settings: %s" % what, section="oracle")
+        ok = f_cli.shape == f_lib.shape
+        if ok:
+            noise = (np.abs(f_cli) < 1e-4) & (np.abs(f_lib) < 1e-4)
+            ok = bool(np.all((np.abs(f_cli - f_lib) <= 2e-10) | noise))
+        if not ok:
+            run.violation("phonopy_script.main", "setting-does-not-override-yaml-" + what,
+                          "%s `%s`: qpoints.yaml has %d bands, the library call with the same override %d%s" % (
+                              "phonopy-load" if variant == "load" else "phonopy", " ".join(argv), f_cli.shape[1], f_lib.shape[1],
+                              "" if f_cli.shape != f_lib.shape else "; frequencies differ by %.3g" % float(np.abs(f_cli - f_lib).max())), case)
+            return
+        py = _yaml("phonopy.yaml")
+        pm_rec = np.array(py.get("primitive_matrix", np.eye(3)), dtype=float)
+        pm_lib = np.eye(3) if lib.primitive_matrix is None else np.asarray(lib.primitive_matrix, dtype=float)
+        sm_rec = np.array(py.get("supercell_matrix"), dtype=float)
+        fl.nchecks += 1
+        if np.abs(pm_rec - pm_lib).max() > 1e-12 or np.abs(sm_rec - lib.supercell_matrix).max() > 0:
+            run.violation("phonopy_script.main", "setting-does-not-override-yaml-" + what,
+                          "`%s`: phonopy.yaml records primitive_matrix %s / supercell_matrix %s, the library call uses %s / %s" % (
+                              " ".join(argv), pm_rec.tolist(), sm_rec.tolist(), pm_lib.tolist(), np.asarray(lib.supercell_matrix).tolist()), case)
+        nac_rec = "nac" in py or "born_effective_charge" in py
+        fl.nchecks += 1
+        if nac_rec != (lib.nac_params is not None):
+            run.violation("phonopy_script.main", "setting-does-not-override-yaml-" + what,
+                          "`%s`: phonopy.yaml %s NAC parameters, the library call %s them" % (
+                              " ".join(argv), "records" if nac_rec else "has no", "uses" if lib.nac_params is not None else "does not use"), case)
+        if extra_check is not None:
+            extra_check(lib, argv, case)
+
+    for variant in ("load", "phonopy"):
+        # ---- primitive axes: option contradicts the stored matrix (24 bands vs 6)
+        run_case(variant, "params_F.yaml", ["--pa", "P"], dict(primitive_matrix="P"), "primitive-axes")
+        run_case(variant, "params_P.yaml", ["--pa", rng.choice(["F", "auto", "0 1/2 1/2 1/2 0 1/2 1/2 1/2 0"])], dict(primitive_matrix="F"), "primitive-axes")
+        run_case(variant, "params_F.yaml", [], dict(), "nothing-given")  # nothing given: the stored matrix is used
+        # ---- NAC on/off against the stored nac_params
+        if variant == "load":
+            run_case(variant, "pa_nac_F.yaml", ["--nonac"], dict(is_nac=False), "nac")
+            run_case(variant, "pa_nac_F.yaml", [], dict(), "nac")
+            run_case(variant, "pa_nac_F.yaml", [], dict(primitive_matrix="P", is_nac=False), "primitive-axes", conf=["PRIMITIVE_AXES = P", "NAC = .FALSE."])
+            run_case(variant, "params_F.yaml", ["--no-fc-symmetry"], dict(symmetrize_fc=False), "fc-symmetry")
+            run_case(variant, "params_F.yaml", [], dict(symmetrize_fc=False), "fc-symmetry", conf=["FC_SYMMETRY = .FALSE."])
+        else:
+            run_case(variant, "pa_nac_F.yaml", ["--nac"], dict(is_nac=True), "nac")
+            run_case(variant, "pa_nac_F.yaml", [], dict(is_nac=False), "nac")
+            run_case(variant, "params_F.yaml", ["--fc-symmetry"], dict(symmetrize_fc=True), "fc-symmetry")
+            # --dim against the stored supercell matrix: the file's matrix is kept (as in phonopy.load)
+            run_case(variant, "params_F.yaml", ["--dim", "2", "2", "2"], dict(supercell_matrix=[2, 2, 2]), "supercell")
+    # the overrides are not vacuous: P vs F, NAC, symmetrisation change the library result
+    a = phonopy.load("pa_nac_F.yaml", fc_calculator="traditional", log_level=0)
+    b = phonopy.load("params_F.yaml", fc_calculator="traditional", symmetrize_fc=False, is_nac=False, log_level=0)
+    a.run_qpoints(q)
+    b.run_qpoints(q)
+    c = phonopy.load("params_F.yaml", fc_calculator="traditional", is_nac=False, log_level=0)
+    c.run_qpoints(q)
+    if np.abs(a.get_qpoints_dict()["frequencies"] - c.get_qpoints_dict()["frequencies"]).max() < 1e-3 or \
+            np.abs(b.get_qpoints_dict()["frequencies"] - c.get_qpoints_dict()["frequencies"]).max() < 1e-7:
+        run.broke("harness", "override workflow is vacuous: NAC or force-constant symmetrisation does not change the frequencies")
+    # ---- MESH in the conf file against --mesh (phonopy-load --config)
+    for opts, conf, mesh in ((["--mesh", "3", "3", "3"], ["MESH = 2 2 2"], [3, 3, 3]), ([], ["MESH = 2 2 2"], [2, 2, 2])):
+        U.write_conf("mesh.conf", conf)
+        argv = ["params_F.yaml", "--fc-calc", "traditional", "--config", "mesh.conf"] + opts
+        if fl.cmd("load", argv, must=["mesh.yaml"]) is not None:
+            lib = phonopy.load("params_F.yaml", fc_calculator="traditional", log_level=0)
+            lib.run_mesh(mesh)
+            y = _yaml("mesh.yaml")
+            run.count("yaml-contradicting settings: mesh", section="oracle")
+            fl.nchecks += 1
+            d = lib.get_mesh_dict()
+            f_cli = np.array([[b_["frequency"] for b_ in p["band"]] for p in y["phonon"]])
+            if list(y["mesh"]) != mesh or f_cli.shape != d["frequencies"].shape or not np.all(
+                    (np.abs(f_cli - d["frequencies"]) <= 2e-10) | ((np.abs(f_cli) < 1e-4) & (np.abs(d["frequencies"]) < 1e-4))):
+                run.violation("phonopy_script.main", "setting-does-not-override-yaml-mesh",
+                              "`phonopy-load %s` with conf %s: mesh.yaml has mesh %s, expected %s as in run_mesh(%s)" % (" ".join(argv), conf, y["mesh"], mesh, mesh),
+                              dict(argv=argv, conf=conf))
+    run.cov["oracle"]["workflow comparisons: " + fl.name] = fl.nchecks
+    os.chdir(tmp)
